@@ -77,7 +77,9 @@ class Composed:
                 if not os.path.exists(init) and pkg not in self.namespace_packages:
                     open(init, "w").close()
             for fn, text in files.items():
-                with open(os.path.join(d, fn), "w", encoding="utf-8") as f:
+                target = os.path.join(d, *fn.split("/"))
+                os.makedirs(os.path.dirname(target), exist_ok=True)
+                with open(target, "w", encoding="utf-8") as f:
                     f.write(text)
         if self.link_packages:
             store = os.path.join(self.root, "zcv-pkgstore")
@@ -222,6 +224,11 @@ def compose(rng, ast, pkgbase, use_components=True, use_bases=True, use_prefixes
         if comp_d:
             c.packages[pd] = {"component.xml": gen.render_schema(comp_d, root="component")}
         c.packages[pc] = {"component.xml": gen.render_schema(comp_c, root="component")}
+        if rng.random() < 0.25:
+            # a package that re-binds its __path__: its resources live where the new list says
+            c.packages[pc] = {"__init__.py": "import os\n__path__ = [os.path.join(os.path.dirname(__file__), 'impl')]\n",
+                              "impl/component.xml": c.packages[pc]["component.xml"]}
+            c.features.add("components:package-rebinds-its-path")
         c.packages[pa] = {fa: gen.render_schema(comp_a, root="component")}
         c.packages[pb] = {"component.xml": gen.render_schema(comp_b, root="component")}
         c.features.add("components:diamond")
@@ -246,6 +253,12 @@ def compose(rng, ast, pkgbase, use_components=True, use_bases=True, use_prefixes
             if i == nb - 1:
                 b["abstract"], b["types"], b["imports"] = main["abstract"], main["types"], main.get("imports", [])
                 main["abstract"], main["types"], main["imports"] = [], [], []
+                again = [x for x in b["imports"] if not (x[0] if isinstance(x, (list, tuple)) else x).startswith(".")]
+                if again and rng.random() < 0.4:
+                    # the extending schema imports, once more, a package that its base has imported
+                    main["imports"] = [rng.choice(again)]
+                    main["imports_last"] = True
+                    c.features.add("components:import-repeated-by-the-extender")
             if inherit_dt:
                 b["datatype"] = main["datatype"]
             elif main.get("datatype") and rng.random() < 0.5:
